@@ -114,13 +114,27 @@ func pfResolve(c *corpus, s pfSpec) *pfFun {
 		}
 	}
 	for i := 0; i < sig.Results().Len(); i++ {
-		kd := pfKind(sig.Results().At(i).Type())
-		if !pfScalar(kd) {
-			g.unrec = append(g.unrec, "result of untranslated type "+sig.Results().At(i).Type().String())
+		rt := sig.Results().At(i).Type()
+		kd := pfKind(rt)
+		if pfScalar(kd) {
+			nilable := (kd == "int" || kd == "dec") && pfReturnsNilLit(fd, sig.Results().Len(), i)
+			if nilable {
+				kd += "?" // some return gives the nil value T{}: the component is an option Z
+			}
+			g.resK = append(g.resK, kd)
+			g.resShape, g.resFieldK, g.resNil = append(g.resShape, nil), append(g.resFieldK, nil), append(g.resNil, nilable)
+			continue
+		}
+		// a struct result: one component per scalar field, in declaration order
+		_, isStruct := types.Unalias(rt).Underlying().(*types.Struct)
+		names, kinds := pfStructFields(rt)
+		if _, ptr := types.Unalias(rt).(*types.Pointer); ptr || !isStruct || len(names) == 0 {
+			g.unrec = append(g.unrec, "result of untranslated type "+rt.String())
 			g.decl = nil
 			return g
 		}
-		g.resK = append(g.resK, kd)
+		g.resK = append(g.resK, kinds...)
+		g.resShape, g.resFieldK, g.resNil = append(g.resShape, names), append(g.resFieldK, kinds), append(g.resNil, false)
 	}
 	return g
 }
@@ -157,6 +171,10 @@ func (t *pfTr) translateFun(g *pfFun) {
 			en[r] = pfNil
 		case "bool":
 			en[r] = "false"
+		case "list":
+			en[r] = "(@nil Z)"
+		case "":
+			en[r] = t.newStruct(&pfStruct{over: map[string]string{}}) // a struct result: the zero value
 		default:
 			en[r] = "0"
 		}
